@@ -23,13 +23,14 @@ Holds(c, e) ==
       [] c = "filename_as_supplied" -> e.fn_ok
       [] c = "header_ndims_as_supplied" -> e.ndims = e.ndims_supplied
       [] c = "pixel_count" -> e.nrows = NRows /\ e.npix = e.n
+      [] c = "pixel_block_complete" -> e.present = e.n
       [] c = "all_pixels_in_order_rounded_once" -> e.runs = ExpectedRuns(e.n)
       [] c = "id_table_is_the_pixel_table" ->
             e.hasids => (IsRunsOf(e.runs, e.ids) /\ (e.runs = ExpectedRuns(e.n) <=> e.ids = PixelTable(e.n)))
       [] c = "metadata_pixel_count" -> e.npix = e.n
       [] c = "metadata_range_shape" -> e.shape_ok
-      [] c = "metadata_row_minimum" -> (e.n > 0 /\ e.shape_ok) => \A r \in 1..NRows : e.minrank[r] = 1
-      [] c = "metadata_row_maximum" -> (e.n > 0 /\ e.shape_ok) => \A r \in 1..NRows : e.maxrank[r] = e.hi[r]
+      [] c = "metadata_row_range" ->
+            (e.n > 0 /\ e.shape_ok) => \A r \in 1..NRows : e.minrank[r] = 1 /\ e.maxrank[r] = e.hi[r]
       [] c = "metadata_ranks_consistent" ->
             (e.n > 0 /\ e.shape_ok /\ e.ranks # <<>>) =>
                 \A r \in 1..NRows : /\ Len(e.ranks[r]) = e.n
@@ -57,9 +58,10 @@ Holds(c, e) ==
 ClausesOf(kind) ==
     CASE kind = "main" -> <<"file_count_is_number_of_runs", "title_as_supplied", "filename_as_supplied",
                             "header_ndims_as_supplied">>
-      [] kind = "pix" -> <<"pixel_count", "all_pixels_in_order_rounded_once", "id_table_is_the_pixel_table">>
+      [] kind = "pix" -> <<"pixel_count", "pixel_block_complete", "all_pixels_in_order_rounded_once",
+                           "id_table_is_the_pixel_table">>
       [] kind = "pixmeta" -> <<"metadata_pixel_count", "filename_as_supplied", "metadata_range_shape",
-                               "metadata_row_minimum", "metadata_row_maximum", "metadata_ranks_consistent">>
+                               "metadata_row_range", "metadata_ranks_consistent">>
       [] kind = "exp" -> <<"one_record_per_run", "run_ids_one_based_in_order", "energy_mode", "energies_in_meV",
                            "angles_in_radians", "orientation_vectors", "strings_as_supplied",
                            "reader_labels_written_dimension">>
@@ -81,8 +83,9 @@ TNext == /\ l <= Len(Tr)
          /\ LET e == Tr[l]
                 f == Failing(e)
             IN /\ nbad' = IF f = <<>> THEN nbad ELSE nbad + 1
-               /\ (f = <<>> \/ PrintT(<<"REJECT", l, e.tid, f,
-                                        IF e.avail /\ "dims" \in DOMAIN e THEN BadDims(e) ELSE {}>>))
+               /\ IF f = <<>> THEN TRUE
+                  ELSE PrintT(<<"REJECT", l, e.tid, f,
+                                IF e.avail /\ "dims" \in DOMAIN e THEN BadDims(e) ELSE {}>>)
 TSpec == TInit /\ [][TNext]_tvars
 Done == (l = Len(Tr) + 1) => PrintT(<<"DONE", l - 1, nbad>>)
 =============================================================================
